@@ -29,6 +29,9 @@ use trion::asm::{AsmErrorKind, ConstantError, Context, SegmentError};
 use verif_harness::codec::*;
 use verif_harness::stmtgen::*;
 use verif_harness::*;
+#[path = "../exprgen.rs"]
+mod exprgen;
+use exprgen::{Ex, Leaves, TEMPL};
 
 // ------------------------------------------------------------------ projects
 #[derive(Clone, Debug)]
@@ -611,6 +614,238 @@ fn c05_program(rng: &mut Rng) -> Project
 	Project{files, root: "root.asm".into()}
 }
 
+// ------------------------------------------------------------------ C05: deferred statements over the whole expression language
+// Every `.du8/.du16/.du32` value and every instruction operand of these programs is an expression (all operators, unary
+// `-` and `!`, nesting up to 4) over constants and names that are NOT YET KNOWN where the statement stands:
+//   (a) plain forward references (label / `.const` defined later in the file),
+//   (b) names declared by `.global n;` before the use (in an included file: `.import n;` of a name the includer has only
+//       declared) that get their value later (label / `.const` later in the file, for an import: in the includer).
+// The program is laid out first (sizes are syntactic), so every name has its final value before the expressions are
+// drawn; the values are kept in range by `& mask` or by adding the constant that yields a chosen value.  The same
+// statement is placed again AFTER all definitions (second region / second included file): C05's order independence.
+// The oracle is Asm/LayoutSpecExt.v in the driver; nothing computed here is an expectation.
+struct Hole { file: usize, templ: usize, addr: u64, unknown: Vec<String>, known: Vec<String>, same_as: Option<usize> }
+#[derive(Clone)]
+struct XName { name: String, is_label: bool, cval: i64, declared: bool }
+struct XG { files: Vec<(String, String)>, holes: Vec<Hole>, vals: std::collections::HashMap<String, i64>, uniq: u32, cur: u64 }
+
+impl XG
+{
+	fn fresh(&mut self, p: &str) -> String { self.uniq += 1; format!("{}{}", p, self.uniq) }
+	fn hole(&mut self, fi: usize, templ: usize, unknown: &[String], known: &[String], same_as: Option<usize>) -> usize
+	{
+		let id = self.holes.len();
+		let t = &TEMPL[templ];
+		self.files[fi].1.push_str(&t.text.replace("{}", &format!("@{}@", id)));
+		self.files[fi].1.push_str(";\n");
+		self.holes.push(Hole{file: fi, templ, addr: self.cur, unknown: unknown.to_vec(), known: known.to_vec(), same_as});
+		self.cur += t.size;
+		id
+	}
+	fn filler(&mut self, fi: usize, rng: &mut Rng)
+	{
+		let cur = self.cur;
+		let (t, n): (String, u64) = match rng.below(6)
+		{
+			0 | 1 => ("NOP;".into(), 2),
+			2 => (format!(".du8 0x{:X};", rng.below(256)), 1),
+			3 => (".dstr \"ab\";".into(), 2),
+			4 => (".align 4;".into(), (4 - cur % 4) % 4),
+			_ => (".align 2;".into(), cur % 2),
+		};
+		self.files[fi].1.push_str(&t); self.files[fi].1.push('\n');
+		self.cur += n;
+	}
+	fn define(&mut self, fi: usize, n: &XName)
+	{
+		if n.is_label { self.files[fi].1.push_str(&format!("{}:\n", n.name)); self.vals.insert(n.name.clone(), self.cur as i64); }
+		else
+		{
+			let v = if n.cval < 0 { format!("-{}", -n.cval) } else if n.cval % 3 == 0 { format!("0x{:X}", n.cval) } else { format!("{}", n.cval) };
+			self.files[fi].1.push_str(&format!(".const {}, {};\n", n.name, v));
+			self.vals.insert(n.name.clone(), n.cval);
+		}
+	}
+}
+
+fn xcval(rng: &mut Rng) -> i64
+{
+	match rng.below(8) { 0 | 1 => rng.below(300) as i64, 2 => rng.below(0x1_0000_0000) as i64, 3 => -(rng.below(200) as i64) - 1, 4 => 1 << rng.below(20), 5 => 0x1000 + 4 * rng.below(0x400) as i64, 6 => rng.below(0x10000) as i64, _ => 2 + rng.below(60) as i64 }
+}
+
+fn names_of(v: &[XName]) -> Vec<String> { v.iter().map(|n| n.name.clone()).collect() }
+
+fn c05x_program(rng: &mut Rng) -> Project
+{
+	let mut x = XG{files: vec![("root.asm".into(), String::new())], holes: vec![], vals: std::collections::HashMap::new(), uniq: 0, cur: 0};
+	let mut bases: Vec<u64> = vec![];
+	while bases.len() < 2
+	{
+		let b = *rng.pick(&[0x0u64, 0x1000_0000, 0x2000_0000, 0x2000_1000, 0xFFFF_0000, 0x0800_0000]) + 0x1000 * rng.below(3) + *rng.pick(&[0u64, 0, 0, 1, 2, 3, 0x80]);
+		if !bases.iter().any(|y| y.abs_diff(b) < 0x2000) { bases.push(b); }
+	}
+	let mut pending: Vec<XName> = vec![];
+	let mut known: Vec<String> = vec![];
+	let ng = if rng.chance(1, 8) { 0 } else { 1 + rng.below(3) };
+	let addr_first = rng.chance(1, 2);
+	if addr_first { x.files[0].1.push_str(&format!(".addr 0x{:X};\n", bases[0])); }
+	for _ in 0..ng
+	{
+		let n = XName{name: x.fresh("g"), is_label: rng.chance(1, 2), cval: xcval(rng), declared: true};
+		x.files[0].1.push_str(&format!(".global {};\n", n.name));
+		pending.push(n);
+	}
+	if !addr_first { x.files[0].1.push_str(&format!(".addr 0x{:X};\n", bases[0])); }
+	x.cur = bases[0];
+	let mut child: Option<(Vec<String>, Vec<usize>)> = None;   // (imported names, holes of the child that use imported names only)
+	let n1 = 3 + rng.below(8);
+	for step in 0..n1
+	{
+		match if step == 0 { 0 } else { rng.below(13) }
+		{
+			0..=5 =>
+			{
+				if pending.is_empty() || rng.chance(1, 3) { let n = XName{name: x.fresh("f"), is_label: rng.chance(1, 2), cval: xcval(rng), declared: false}; pending.push(n); }
+				let t = rng.below(TEMPL.len() as u64) as usize;
+				x.hole(0, t, &names_of(&pending), &known, None);
+			},
+			6 => x.filler(0, rng),
+			7 => { let n = XName{name: x.fresh("b"), is_label: true, cval: 0, declared: false}; x.define(0, &n); known.push(n.name); },
+			8 => if !pending.is_empty() { let n = pending.remove(rng.below(pending.len() as u64) as usize); x.define(0, &n); known.push(n.name); },
+			9 => { let n = XName{name: x.fresh("c"), is_label: false, cval: xcval(rng), declared: false}; x.define(0, &n); known.push(n.name); },
+			10 | 11 if child.is_none() && (pending.iter().any(|n| n.declared) || !known.is_empty()) =>
+			{
+				// an included file that imports names the root has declared (value still to come) or already defined
+				let fi = x.files.len();
+				x.files.push(("c1.asm".into(), String::new()));
+				let mut imp_pending: Vec<String> = vec![];
+				let mut imp_known: Vec<String> = vec![];
+				for n in pending.iter().filter(|n| n.declared) { if rng.chance(3, 4) { imp_pending.push(n.name.clone()); } }
+				for n in known.iter() { if rng.chance(1, 4) { imp_known.push(n.clone()); } }
+				if imp_pending.is_empty() && imp_known.is_empty() { match pending.iter().find(|n| n.declared) { Some(n) => imp_pending.push(n.name.clone()), None => imp_known.push(known[0].clone()) } }
+				for n in imp_pending.iter().chain(imp_known.iter()) { x.files[fi].1.push_str(&format!(".import {};\n", n)); }
+				let mut cpend: Vec<XName> = vec![];
+				let mut cknown: Vec<String> = imp_known.clone();
+				let mut own_holes: Vec<usize> = vec![];
+				let mut imp_only: Vec<usize> = vec![];
+				for _ in 0..2 + rng.below(4)
+				{
+					match rng.below(8)
+					{
+						0..=4 =>
+						{
+							let t = rng.below(TEMPL.len() as u64) as usize;
+							if rng.chance(1, 2) && !imp_pending.is_empty() { let h = x.hole(fi, t, &imp_pending, &imp_known, None); imp_only.push(h); own_holes.push(h); }
+							else
+							{
+								if (cpend.is_empty() && imp_pending.is_empty()) || rng.chance(1, 3) { let n = XName{name: x.fresh("cf"), is_label: rng.chance(1, 2), cval: xcval(rng), declared: false}; cpend.push(n); }
+								let mut unk = imp_pending.clone(); unk.extend(names_of(&cpend));
+								let h = x.hole(fi, t, &unk, &cknown, None); own_holes.push(h);
+							}
+						},
+						5 => x.filler(fi, rng),
+						6 => { let n = XName{name: x.fresh("cb"), is_label: true, cval: 0, declared: false}; x.define(fi, &n); cknown.push(n.name); },
+						_ => if !cpend.is_empty() { let n = cpend.remove(0); x.define(fi, &n); cknown.push(n.name); },
+					}
+				}
+				for n in cpend.drain(..) { x.define(fi, &n); }
+				// the same statements once more inside the file (its own names are defined now, the imported ones may still be open)
+				for h in own_holes { if TEMPL[x.holes[h].templ].kind == 0 && rng.chance(1, 2) { let t = x.holes[h].templ; x.hole(fi, t, &[], &[], Some(h)); } }
+				x.files[0].1.push_str(".include \"c1.asm\";\n");
+				let mut imps = imp_pending; imps.extend(imp_known);
+				child = Some((imps, imp_only));
+			},
+			_ => x.filler(0, rng),
+		}
+	}
+	let first: Vec<usize> = (0..x.holes.len()).filter(|&h| x.holes[h].file == 0 && x.holes[h].same_as.is_none()).collect();
+	if rng.chance(3, 4) { x.files[0].1.push_str(&format!(".addr 0x{:X};\n", bases[1])); x.cur = bases[1]; }
+	while !pending.is_empty()
+	{
+		if rng.chance(1, 3) { x.filler(0, rng); }
+		let n = pending.remove(rng.below(pending.len() as u64) as usize);
+		x.define(0, &n); known.push(n.name);
+	}
+	// second region: the same statements after all definitions
+	if rng.chance(1, 2) { x.filler(0, rng); }
+	for h in first
+	{
+		let t = x.holes[h].templ;
+		if TEMPL[t].kind == 0 { x.hole(0, t, &[], &[], Some(h)); }
+		else if rng.chance(1, 2) { x.hole(0, t, &[], &known, None); }
+	}
+	if let Some((imps, imp_only)) = child
+	{
+		if !imp_only.is_empty() && rng.chance(3, 4)
+		{
+			let fi = x.files.len();
+			x.files.push(("c2.asm".into(), String::new()));
+			for n in imps.iter() { x.files[fi].1.push_str(&format!(".import {};\n", n)); }
+			for h in imp_only { let t = x.holes[h].templ; if TEMPL[t].kind == 0 { x.hole(fi, t, &[], &[], Some(h)); } else { x.hole(fi, t, &[], &imps, None); } }
+			x.files[0].1.push_str(".include \"c2.asm\";\n");
+		}
+	}
+	// the expressions, now that every name has its final value
+	let mut texts: Vec<String> = vec![];
+	for h in 0..x.holes.len()
+	{
+		let hole = &x.holes[h];
+		if let Some(o) = hole.same_as { let t = texts[o].clone(); texts.push(t); continue; }
+		let t = &TEMPL[hole.templ];
+		let iv = |n: &String| { let v = *x.vals.get(n).expect("name without value") as i128; (Ex::Name(n.clone()), (v, v)) };
+		let mut names: Vec<(Ex, exprgen::Iv)> = vec![];
+		for n in hole.unknown.iter() { for _ in 0..3 { names.push(iv(n)); } }
+		for n in hole.known.iter() { names.push(iv(n)); }
+		let lv = Leaves{names: &names};
+		let must: Vec<String> = if hole.unknown.is_empty() { hole.known.clone() } else { hole.unknown.clone() };
+		// the wanted value of a PC-relative operand: a target in range of the instruction
+		let a = hole.addr as i64;
+		let mut want: Option<i64> = None;
+		while t.kind != 0
+		{
+			let w = match t.kind
+			{
+				1 => a + 4 + 2 * rng.range(-1024, 1023),
+				2 => a + 4 + 2 * rng.range(-128, 127),
+				3 => a + 4 + 2 * rng.range(-0x8000, 0x8000),
+				_ => (a & !3) + 4 + 4 * rng.range(0, 255),
+			};
+			if w >= 0 && w <= 0xFFFF_FFFF { want = Some(w); break; }
+		}
+		let mut done: Option<Ex> = None;
+		for attempt in 0..10
+		{
+			let depth = if attempt < 8 { 1 + rng.below(4) as u32 } else { 1 };
+			let (e, (lo, hi)) = exprgen::gen_with(rng, depth, &lv, &must);
+			if lo != hi { continue; }
+			let v = lo as i64;
+			let closed = match want
+			{
+				Some(w) => exprgen::close_exact(e, v, w, rng),
+				None =>
+				{
+					let fits = v >= t.plus && v <= t.plus + t.mask && ((v - t.plus) & t.mask) == v - t.plus;
+					if fits && rng.chance(2, 3) { Some(e) }
+					else if rng.chance(1, 2) { Some(exprgen::close_mask(e, t.mask, t.plus)) }
+					else { let w = t.plus + (rng.next() as i64 & t.mask); exprgen::close_exact(e.clone(), v, w, rng).or(Some(exprgen::close_mask(e, t.mask, t.plus))) }
+				},
+			};
+			if closed.is_some() { done = closed; break; }
+		}
+		let e = done.unwrap_or_else(|| Ex::Num(want.unwrap_or(t.plus)));
+		let minimal = rng.chance(1, 2);
+		texts.push(exprgen::show(&e, rng, minimal));
+	}
+	let mut files: Vec<(String, Vec<u8>)> = vec![];
+	for (n, text) in x.files.iter()
+	{
+		let mut s = text.clone();
+		for h in (0..texts.len()).rev() { s = s.replace(&format!("@{}@", h), &texts[h]); }
+		files.push((n.clone(), s.into_bytes()));
+	}
+	Project{files, root: "root.asm".into()}
+}
+
 // ------------------------------------------------------------------ fixed cases
 fn single(src: &str) -> Project { Project{files: vec![("root.asm".into(), src.as_bytes().to_vec())], root: "root.asm".into()} }
 
@@ -672,6 +907,13 @@ fn main()
 				for _ in 0..n
 				{
 					let p = c05_program(&mut rng);
+					if sh.mine() { let c = format!("C05 {}", project_text(&p)); let r = run_project(&p); out.line(&c, &r); }
+				}
+				let mut rng = Rng::new(seed ^ 0x0505_0505);
+				let n = if thorough { 100_000 } else { 3_000 };
+				for _ in 0..n
+				{
+					let p = c05x_program(&mut rng);
 					if sh.mine() { let c = format!("C05 {}", project_text(&p)); let r = run_project(&p); out.line(&c, &r); }
 				}
 			}
